@@ -978,6 +978,8 @@ func (c *Ctx) rulePair(rule string) {
 							c.R.Ok(rule, k, c.M.InstrPos(in), "removal from the pending table", "dominated by `result != nil` of the entry: the waiter removes its own, completed entry")
 						} else if c.ownUnstartedEntry(b, ro) {
 							c.R.Ok(rule, k, c.M.InstrPos(in), "removal from the pending table", "on this path the call inserted the entry itself (the inserting function returned no error) and the write of the work start failed: the peer never heard of the run, no result can arrive for it")
+						} else if n := c.everyCallSite(fn, func(sb *ssa.BasicBlock) bool { return c.ownUnstartedEntry(sb, ro) }); n > 0 {
+							c.R.Ok(rule, k, c.M.InstrPos(in), "removal from the pending table", sprintf("the function is called (%d site(s)) only where the caller inserted the entry itself and the write of the work start failed: the peer never heard of the run, no result can arrive for it", n))
 						} else {
 							c.R.Bad(rule, k, c.M.InstrPos(in), "pending entry removed although its result may not have arrived",
 								"the result for this run ID will find no entry and be dropped; the Execute call that registered it waits forever")
@@ -3458,4 +3460,36 @@ func (c *Ctx) rulePluginPanic(rule string) {
 	if n == 0 {
 		c.R.Ok(rule, key(rule, "plugin", "no explicit panic in the plugin entry point"), "-", "plugin entry point", sprintf("%d functions of package plugin examined", len(fns)))
 	}
+}
+
+// everyCallSite: the number of call sites of fn if there is at least one, all are static calls, and pred holds for the
+// block of each; 0 otherwise.
+func (c *Ctx) everyCallSite(fn *ssa.Function, pred func(*ssa.BasicBlock) bool) int {
+	n := 0
+	for _, g := range c.M.Funcs {
+		for _, b := range g.Blocks {
+			for _, in := range b.Instrs {
+				ci, ok := in.(ssa.CallInstruction)
+				if !ok {
+					continue
+				}
+				for _, callee := range c.M.Callees(ci.Common()) {
+					if callee != fn {
+						continue
+					}
+					if _, isGo := in.(*ssa.Go); isGo {
+						return 0
+					}
+					if _, isDefer := in.(*ssa.Defer); isDefer {
+						return 0
+					}
+					if ci.Common().StaticCallee() != fn || !pred(b) {
+						return 0
+					}
+					n++
+				}
+			}
+		}
+	}
+	return n
 }
